@@ -196,6 +196,11 @@ def check_format_input_orientation(inp, init_format=False):
         inpQ = inp.as_quat()
     # return
     if init_format:
+        if inpQ.size == 0:
+            raise MagpylibBadUserInput(
+                "Input parameter `orientation` must be `None` or scipy `Rotation` object"
+                " with at least one rotation.\nInstead received an empty `Rotation`."
+            )
         return np.reshape(inpQ, (-1, 4))
     return inp, inpQ
 
@@ -345,6 +350,11 @@ def check_format_input_vector(
         ),
     )
     if isinstance(reshape, tuple):
+        if inp.size == 0:
+            raise MagpylibBadUserInput(
+                f"Input parameter `{sig_name}` must be {sig_type}.\n"
+                f"Instead received an empty array_like with shape {inp.shape}."
+            )
         return np.reshape(inp, reshape)
 
     if forbid_negative0:
